@@ -42,6 +42,7 @@ func runC03(c *Ctx) {
 	runC03Tree(c)
 	runC03ReadyFilter(c)
 	borrow(c, "O12", "C14", "O1", "PodSet.AssignTask <-> clearOldStatus", "the pod set's active-allocated counter decides how many pods of a gang may be evicted ('above the minimum'); a decrement under another status predicate than the increment makes it drift below the real number, and a later victim selection evicts only part of what it must")
+	borrow(c, "O17", "C13", "O5", "a failed eviction does not end the commit", "when one victim of a gang cannot be evicted any more (it terminated since the snapshot) the remaining evictions still go out: ending the commit there leaves the gang with fewer running pods than its minimum and more than none")
 	borrow(c, "O13", "C12", "O9", "", "a terminating member that is snapshotted as bound keeps the gang looking complete: allocate binds a single replacement while the gang is below its minimum")
 	runC13LookupsFirst(c, "O10", "C03")
 	stmtAlloc := p.Func(pkgFramework, "Statement", "Allocate")
